@@ -37,6 +37,17 @@ condition: invisible iff the stored object is a function of the key
 (`C08_memo_keyed_by_object_history_independent`,
 `C08_memo_coarse_key_history_dependent`; instance: the divider of
 `mpa.Int.Div/Mod`, `C08_divider_keyed_by_max_width_history_dependent`).
+All step kinds (what the process did
+before is not only compilations: streaming sessions, CompileSSA, Compute,
+Garble/Eval, Marshal/Parse — Model/ProcSteps.lean):
+`C08_all_step_kinds_history_independent` (every kind leaves what a compilation
+reads unchanged ⇒ history independent over histories of ALL kinds),
+`C08_stepNowK_independent_of_process_state` (the code as it is: a new wire
+allocator per program), and for a process-wide allocator pool the exact
+condition: invisible iff `Release` empties the free lists or no streaming
+session ever ran (`C08_pooled_allocator_cleared_history_independent`,
+`C08_pooled_allocator_invisible_without_streaming`,
+`C08_pooled_allocator_keeping_free_lists_history_dependent`).
 NOT a theorem: that nothing
 outside the enumerated sites and the modelled state influences the bytes
 (directory listing order, pointer values, scheduler) — that part is the
@@ -62,6 +73,7 @@ No two packages of /repo/pkg share a last path element (checked on every run).
 -/
 import MpcVerif.Proofs.Determinism
 import MpcVerif.Proofs.ProcState
+import MpcVerif.Proofs.ProcSteps
 
 namespace Mpc
 open Mpc.Det
@@ -402,5 +414,110 @@ theorem C08_divider_keyed_by_max_width_history_dependent :
 example : (compileMemo dividerByMax 1 [(0xf123456789abcdef0123456789abcdef, 0x123456789abcdef01234567)]
       (runMemoHistory dividerByMax 1 [[(0x80000000000000000000000000000001, 1000003)]] [])).1
     = [(340282365886020561464563945178558002168, 4109017)] := by decide +kernel
+
+/-! ### Process state, histories over ALL step kinds (Model/ProcSteps.lean)
+
+What the process did before a compilation is not only compilations: it may have
+served streaming sessions (values die, `gc` recycles their wires), obtained SSA
+programs, computed / garbled / marshalled / parsed circuits.  A history step
+has a kind; `KStep σ π = Req π → σ → Out × σ`.  Tie to the code: (1) the pinned
+package-level variables (a pool is one), (2) the `ahist` correspondence: along
+real one-process histories over all kinds the folded constants, the number of
+ids the input wires take (`NumWires − NumGates`) and the results of streaming
+sessions / Compute / Garble-Eval equal `outputsAlongK stepNowK`, (3) the
+activity histories of harness/cmd/c08/pacts.go. -/
+
+/-- GENERAL: let `reads` be the component of the process state that a
+compilation reads (`hread`: the output of a compilation depends on the state
+only through it).  If EVERY step kind leaves that component unchanged, the
+output of a compilation is the same after any two histories over ALL step
+kinds, from any two initial states that agree on the component. -/
+theorem C08_all_step_kinds_history_independent {σ π ρ : Type} (step : KStep σ π) (reads : σ → ρ)
+    (isCompile : Req π → Prop)
+    (hread : ∀ r s s', isCompile r → reads s = reads s' → (step r s).1 = (step r s').1)
+    (hkeep : ∀ r s, reads (step r s).2 = reads s)
+    (s₁ s₂ : σ) (hs : reads s₁ = reads s₂) (h₁ h₂ : List (Req π)) (r : Req π) (hc : isCompile r) :
+    (step r (runHistoryK step s₁ h₁)).1 = (step r (runHistoryK step s₂ h₂)).1 := by
+  apply hread r _ _ hc
+  rw [runHistoryK_frame step reads (fun _ => True) (fun r s _ => hkeep r s) h₁ s₁ (fun _ _ => trivial),
+    runHistoryK_frame step reads (fun _ => True) (fun r s _ => hkeep r s) h₂ s₂ (fun _ _ => trivial), hs]
+
+-- non-vacuity: the code as it is (nothing is read), a history with a streaming session and a CompileSSA
+example : (stepNowK (σ := Nat) (π := Unit) ⟨.compile, ⟨[2, 2], [⟨0, none⟩]⟩, (), [], []⟩
+      (runHistoryK stepNowK 7 [⟨.stream, ⟨[2, 2], [⟨0, none⟩]⟩, (), [1, 2], [0, 1]⟩, ⟨.ssa, ⟨[3], []⟩, (), [], []⟩])).1 =
+    (stepNowK (σ := Nat) (π := Unit) ⟨.compile, ⟨[2, 2], [⟨0, none⟩]⟩, (), [], []⟩ (runHistoryK (stepNowK (π := Unit)) 7 [])).1 :=
+  C08_all_step_kinds_history_independent stepNowK (fun _ => ()) (fun r => r.kind = .compile) (fun _ _ _ _ _ => rfl)
+    (fun _ _ => rfl) 7 7 rfl _ _ _ rfl
+
+/-- FULL, for the code as it is (`NewWireAllocator` makes a new allocator for
+every program): after any two histories over all step kinds, from any two
+states, a step of ANY kind gives the same output; the state is handed on
+untouched; and a compilation numbers its input wires `0 … Σ bits − 1`, taking
+exactly `Σ bits` ids (`NumWires − NumGates`, compared on every real
+compilation of the `ahist` ops). -/
+theorem C08_stepNowK_independent_of_process_state {σ π : Type} (st₁ st₂ : σ) (h₁ h₂ : List (Req π)) (r : Req π) :
+    (stepNowK r (runHistoryK stepNowK st₁ h₁)).1 = (stepNowK r (runHistoryK stepNowK st₂ h₂)).1 ∧
+    runHistoryK (stepNowK (π := π)) st₁ h₁ = st₁ ∧
+    (r.kind = .compile → (stepNowK r st₁).1.inIds = List.range' 0 r.prog.args.sum ∧
+      (stepNowK r st₁).1.inw = some r.prog.args.sum ∧ (stepNowK r st₁).1.consts = r.prog.src.map foldNow) := by
+  refine ⟨rfl, runHistoryK_stepNowK h₁ st₁, fun hk => ?_⟩
+  simp [stepNowK, stepOn, hk, compileOut, compileAlloc_empty]
+
+-- non-vacuity: a streaming session of a sibling, then the compilation and a Compute of the S56 victim
+example : outputsAlongK (stepNowK (σ := Unit) (π := Unit)) ()
+      [⟨.stream, ⟨[128, 128], [⟨0, some ⟨128, .div, 0x80000000000000000000000000000001, 1000003⟩⟩, ⟨1, none⟩]⟩, (), [5, 9], [0, 1]⟩,
+       ⟨.compute, ⟨[128, 128], [⟨0, some ⟨128, .div, 0xf123456789abcdef0123456789abcdef, 0x123456789abcdef01234567⟩⟩,
+                               ⟨1, some ⟨128, .mod, 0xf123456789abcdef0123456789abcdef, 0x123456789abcdef01234567⟩⟩]⟩, (), [1, 0], []⟩]
+    = [⟨[], [], none, [340282196780265425013258226093608510054, 9]⟩,
+       ⟨[340282366920938463463374607375665201152, 276701161135814226449], List.range' 0 256, some 256,
+        [340282366920938463463374607375665201153, 276701161135814226449]⟩] := by decide +kernel
+
+/-- A process-wide allocator POOL whose `Release` keeps the free lists is
+visible: after one streaming session in which both arguments die (`gc a`,
+`gc b`), a compilation of a program with the same argument widths gets the
+recycled, already numbered arrays — most recently freed first, so `a` is wired to
+the ids of the session's `b` — and the input wires take NO id from the counter,
+so the first gates' output ids collide with them (`inw = 0`: `NumWires =
+NumGates`, observed on the real code under seeded change S76).  A program with
+other argument widths is not affected. -/
+theorem C08_pooled_allocator_keeping_free_lists_history_dependent :
+    ∃ (history : List (Req Unit)) (r : Req Unit), r.kind = .compile ∧
+      (∃ x ∈ history, x.kind = .stream) ∧
+      (stepPool true r (runHistoryK (stepPool true) WAlloc.empty history)).1 ≠ (stepPool true r WAlloc.empty).1 ∧
+      (stepPool true r (runHistoryK (stepPool true) WAlloc.empty history)).1.inIds = [2, 3, 0, 1] ∧
+      (stepPool true r (runHistoryK (stepPool true) WAlloc.empty history)).1.inw = some 0 ∧
+      (stepPool true r WAlloc.empty).1.inIds = [0, 1, 2, 3] ∧ (stepPool true r WAlloc.empty).1.inw = some 4 :=
+  ⟨[⟨.stream, ⟨[2, 2], [⟨0, none⟩]⟩, (), [1, 2], [0, 1]⟩], ⟨.compile, ⟨[2, 2], [⟨1, none⟩]⟩, (), [], []⟩,
+    rfl, ⟨_, List.mem_cons_self, rfl⟩, by decide, by decide, by decide, by decide, by decide⟩
+
+-- other argument widths: as in a fresh process
+example : (stepPool true ⟨.compile, ⟨[3, 3], []⟩, (), [], []⟩
+      (runHistoryK (stepPool true) WAlloc.empty [⟨.stream, ⟨[2, 2], [⟨0, none⟩]⟩, (), [1, 2], [0, 1]⟩])).1
+    = (stepPool (π := Unit) true ⟨.compile, ⟨[3, 3], []⟩, (), [], []⟩ WAlloc.empty).1 := by decide
+
+/-- … but INVISIBLE to histories without a streaming session (compilations,
+CompileSSA, Compute, Garble/Eval, round trips only): the pool stays empty and
+every step gives the output of the code as it is.  (This is why histories of
+compilations alone cannot observe such a pool.) -/
+theorem C08_pooled_allocator_invisible_without_streaming {σ π : Type} (history : List (Req π))
+    (hns : ∀ x ∈ history, x.kind ≠ .stream) (r : Req π) (st : σ) :
+    (stepPool true r (runHistoryK (stepPool true) WAlloc.empty history)).1 = (stepNowK r st).1 := by
+  rw [runHistoryK_pool_no_stream history hns]
+  rfl
+
+example : (stepPool true ⟨.compile, ⟨[2, 2], []⟩, (), [], []⟩
+      (runHistoryK (stepPool true) WAlloc.empty [⟨.compile, ⟨[2, 2], []⟩, (), [], []⟩, ⟨.ssa, ⟨[2, 2], []⟩, (), [], []⟩])).1.inIds
+    = [0, 1, 2, 3] := by decide
+
+/-- A pool whose `Release` EMPTIES the free lists is invisible after every
+history over all step kinds. -/
+theorem C08_pooled_allocator_cleared_history_independent {σ π : Type} (history : List (Req π)) (r : Req π) (st : σ) :
+    (stepPool false r (runHistoryK (stepPool false) WAlloc.empty history)).1 = (stepNowK r st).1 := by
+  rw [runHistoryK_pool_cleared history]
+  rfl
+
+example : (stepPool false ⟨.compile, ⟨[2, 2], []⟩, (), [], []⟩
+      (runHistoryK (stepPool false) WAlloc.empty [⟨.stream, ⟨[2, 2], [⟨0, none⟩]⟩, (), [1, 2], [0, 1]⟩])).1.inIds
+    = [0, 1, 2, 3] := by decide
 
 end Mpc
